@@ -253,13 +253,18 @@ func (s *StateMachine) Recover(t Task) (_ pb.Snapshot, err error) {
 	}
 	plog.Debugf("%s called Recover, %s, on disk idx %d",
 		s.id(), s.ssid(ss.Index), ss.OnDiskIndex)
-	if err := s.recover(ss, t.Initial); err != nil {
+	if err := s.doRecover(ss, t.Initial); err != nil {
 		return pb.Snapshot{}, err
 	}
+	s.applyMembership(ss, t.Initial)
 	verifGate("rsm.Recover.beforeRestoreRemotes", s.node.ShardID(), s.node.ReplicaID())
+	// the membership of the snapshot has to reach raft before the applied index
+	// is published. once raft is told that everything up to the snapshot index
+	// has been applied it is free to campaign, with the membership it has.
 	if err := s.node.RestoreRemotes(ss); err != nil {
 		return pb.Snapshot{}, err
 	}
+	s.applyIndex(ss)
 	plog.Debugf("%s restored %s", s.id(), s.ssid(ss.Index))
 	return ss, nil
 }
@@ -360,14 +365,6 @@ func (s *StateMachine) checkPartialSnapshotApplyOnDiskSM(ss pb.Snapshot, init bo
 	}
 }
 
-func (s *StateMachine) recover(ss pb.Snapshot, init bool) error {
-	if err := s.doRecover(ss, init); err != nil {
-		return err
-	}
-	s.apply(ss, init)
-	return nil
-}
-
 func (s *StateMachine) doRecover(ss pb.Snapshot, init bool) error {
 	s.mu.Lock()
 	defer s.mu.Unlock()
@@ -415,13 +412,16 @@ func (s *StateMachine) load(ss pb.Snapshot, init bool) error {
 	return nil
 }
 
-func (s *StateMachine) apply(ss pb.Snapshot, init bool) {
+func (s *StateMachine) applyMembership(ss pb.Snapshot, init bool) {
 	index := ss.Index
 	plog.Debugf("%s recovering from %s, init %t", s.id(), s.ssid(index), init)
 	s.logMembership("members", index, ss.Membership.Addresses)
 	s.logMembership("nonVotings", index, ss.Membership.NonVotings)
 	s.logMembership("witnesses", index, ss.Membership.Witnesses)
 	s.members.set(ss.Membership)
+}
+
+func (s *StateMachine) applyIndex(ss pb.Snapshot) {
 	s.lastApplied.Lock()
 	defer s.lastApplied.Unlock()
 	s.lastApplied.index, s.lastApplied.term = ss.Index, ss.Term
